@@ -848,10 +848,9 @@ func (h *verifWHist) stepTick(height int32, errAt map[string]int) {
 			}
 		}
 	}
-	want := len(h.pend) != 0
-	if h.w.blockPollerEnabled.Load() != want && !h.ambiguous {
-		h.flag("C09", "poller-flag", fmt.Sprintf("%s: block poller enabled=%v with %d pending events", hist, !want, len(h.pend)))
-	}
+	// (the poller flag is compared with the model at every hand-over and tick, and its effect - height ticks keep coming while
+	// events are pending - is judged on the free-running scenarios; no ground-truth monitor here: which events the watcher still
+	// holds depends on its own confirmation rule)
 }
 
 func (h *verifWHist) stepReobs(tx *verifWTx, errAt map[string]int, shortHash bool) {
